@@ -61,7 +61,7 @@ func (d *driver) record(phase string, q sequence, res evalResult, script string,
 	d.byPhase[phase]++
 	d.writes += res.writes
 	if res.nontrivial {
-		d.distinct.Add(lib.Hash(q.String()))
+		d.distinct.Add(q.id())
 		if d.sampled[phase] < 2 && len(q) >= 3 && d.evals%7 == 0 {
 			d.sampled[phase]++
 			d.samples = append(d.samples, phase+": "+q.String())
@@ -70,12 +70,12 @@ func (d *driver) record(phase string, q sequence, res evalResult, script string,
 	for _, x := range res.dis {
 		old, ok := d.best[x.key]
 		if ok {
-			// keep the shortest history (ties: smallest text); prefer a single-history script
-			if len(old.q) < len(q) || (len(old.q) == len(q) && old.q.String() <= q.String()) {
+			// keep the shortest history (ties: smallest identity)
+			if len(old.q) < len(q) || (len(old.q) == len(q) && old.q.id() <= q.id()) {
 				continue
 			}
 		}
-		d.best[x.key] = found{key: x.key, what: x.what, q: q, script: script, single: single}
+		d.best[x.key] = found{key: x.key, what: x.what(), q: q, script: script, single: single}
 	}
 }
 
@@ -235,18 +235,18 @@ func longHistory(r *rand.Rand, n int) sequence {
 			if len(c.params) == 2 {
 				s.Args[1] = int8(r.Intn(nTypes))
 			}
+			if ninst >= 6 {
+				break // six instantiations and no live instance left: the history ends here
+			}
 			ok := true
 			if c.ctor {
 				// constructor argument: mostly of the own type, sometimes another kind
-				if r.Intn(100) < 65 {
+				if len(lives) == 0 || r.Intn(100) < 65 {
 					s.Val = s.Args[0]
 				} else {
 					s.Val = int8(r.Intn(nValsAll))
 				}
 				ok = accepts(s.Args[0], s.Val)
-			}
-			if ninst >= 6 {
-				continue
 			}
 			q = append(q, s)
 			if ok {
@@ -330,7 +330,7 @@ func main() {
 	// vocabulary, each alone in a fresh process
 	{
 		r := e.Rand("long")
-		n := e.Pick(800, 20000)
+		n := e.Pick(800, 12000)
 		qs := make([]sequence, n)
 		for i := range qs {
 			qs[i] = longHistory(r, 5+r.Intn(6))
